@@ -112,3 +112,10 @@ Theorem C06_read_until_is_source :
        any_run done read_ok nb_nil ms = ru_expected false false done read_ok nb_nil (existsb (fun x => x) ms).
 Proof. split; [exact read_until_is_source | exact read_until_any_is_source]. Qed.
 Print Assumptions C06_read_until_is_source.
+
+(* Channel.read / Read / ReadAll as translated (the whole trace of a round compared with the model's):
+   a failed transport read: end of stream stops the loop, any other error is handed to the next operation (or the loop stops if Close comes first) and nothing is enqueued; Read returns a pending error first, then a dead read loop as a connection error *)
+From Scrapli Require Import ChanReadSrc.
+Theorem C06_chan_read_round_is_source : chan_read_table_ok = true.
+Proof. exact chan_read_round_is_source. Qed.
+Print Assumptions C06_chan_read_round_is_source.
